@@ -8,11 +8,17 @@ optional pointer nil, how many content entries are there) and follows the Go con
 every dereference whose guard is not in the code is an explicit `panic` outcome. What the decoders and the
 schema validator answer on concrete bytes (found / decode error / nil value / verdict) are arbitrary
 `Bits`: theorems quantify over all of them, i.e. over all traffic. The schema validator contributes
-outcomes of its own: `panic` on an unresolved reference, `diverge` on an unguarded reference cycle
-(`Recursion.unguarded_diverges`, F-C10-1), `panic` when `deepcopy.Copy` meets a YAML mapping key it cannot copy
-under oneOf/anyOf (F-C10-7). The styled decoder of a query parameter contributes `exhaust` (F-C10-8: an array
-index written in the request decides how many elements are built). An error outcome carries whether its text can
-be produced: `errorText` is `err.Error()`, which panics when the rejected value is not JSON-encodable (F-C10-6).
+outcomes of its own: `panic` on an unresolved reference and `diverge` on an unguarded reference cycle
+(`Recursion.unguarded_diverges`, F-C10-1).
+
+Three more outcomes existed on the tree of round 3 and are gone with their repairs; what the code does now on those
+inputs is an ordinary error, i.e. a value of the arbitrary `Bits` (`decodeErr` / `visitOK = false`):
+  * F-C10-6 (2104468, ccc6020): `SchemaError.Error` falls back to `%v` when the JSON encoder refuses the value, and
+    `parsePrimitiveCase` rejects NaN/±Inf: `errorText` (= `err.Error()`) returns for every error;
+  * F-C10-7 (ca97fab): `YamlBodyDecoder` returns a format error for a mapping with a non-string key or a non-finite
+    number (`notJSONData`), so `deepcopy.Copy` under oneOf/anyOf only sees JSON data;
+  * F-C10-8 (ab8c63f): `sliceMapToSlice` returns an error when the largest index is 1024 or more beyond the number of
+    elements given.
 -/
 import KinModel.NoPanic.Router
 import KinModel.NoPanic.Recursion
@@ -20,30 +26,20 @@ namespace KinModel.NoPanic.Traffic
 
 inductive Out
   | ok
-  | err (printable : Bool)   -- an error is returned; `printable` = its `Error()` method returns (see `errorText`)
+  | err
   | panic (site : String)
   | diverge
-  | exhaust                  -- time and memory proportional to a NUMBER written in the request, not to its size
   deriving DecidableEq, Repr
 
 def Out.bad : Out → Bool
   | .panic _ => true
   | .diverge => true
-  | .exhaust => true
   | _ => false
 
-/-- the returned error is one whose text cannot be produced -/
-def Out.unprintable : Out → Bool
-  | .err false => true
-  | _ => false
-
-/-- `err.Error()` on what a validation function returned (`RequestError.Error` / `ResponseError.Error` /
-    `MultiError.Error` end in `SchemaError.Error`, which — unless `SchemaErrorDetailsDisabled` or a message
-    customizer answers — JSON-encodes the schema and the rejected value and **panics when the encoder fails**:
-    a float NaN/±Inf or a YAML mapping with a non-string key inside the rejected value, F-C10-6) -/
-def errorText (details : Bool) : Out → Out
-  | .err false => if details then .panic "SchemaError.Error: encoder.Encode(err.Value)" else .err false
-  | o => o
+/-- `err.Error()` on what a validation function returned: `RequestError.Error` / `ResponseError.Error` /
+    `MultiError.Error` end in `SchemaError.Error`, which JSON-encodes the schema and the rejected value and, since
+    2104468, prints them with `%v` when the encoder fails. It returns for every error. -/
+def errorText (o : Out) : Out := o
 
 /-- a `*SchemaRef` as the traffic path sees it -/
 structure SchemaM where
@@ -58,20 +54,13 @@ structure Bits where
   decodeErr : Bool
   valueNil : Bool
   visitOK : Bool
-  errValueJSON : Bool   -- the value a schema error would carry can be JSON-encoded (false: it holds NaN/±Inf or a
-                        -- mapping with a non-string key; only `strconv.ParseFloat` and the YAML decoder produce those)
-  hugeIndex : Bool      -- a deepObject key addresses an array element by a number far beyond the number of keys
-                        -- (`p[b][2000000000]=1`): `sliceMapToSlice` builds every element up to it (F-C10-8)
-  copyFails : Bool      -- the walk reaches a oneOf/anyOf (in request or response mode) holding a value that
-                        -- `deepcopy.Copy` cannot copy: a mapping with a nil or NaN key (only the YAML decoder makes those)
   deriving DecidableEq, Repr
 
 /-- `schema.VisitJSON(value)` -/
 def visit (s : SchemaM) (b : Bits) : Out :=
   if !s.resolved then .panic "schema.Value is nil"
   else if s.unguarded then .diverge
-  else if b.copyFails then .panic "visitXOFOperations: deepcopy.Copy(value)"      -- F-C10-7
-  else if b.visitOK then .ok else .err b.errValueJSON
+  else if b.visitOK then .ok else .err
 
 structure MediaM where
   schema : Option SchemaM
@@ -93,12 +82,12 @@ def afterDecode (p : ParamM) (schema : Option SchemaM) (b : Bits) : Out :=
   match schema with
   | some s =>
     if b.valueNil ∧ !s.resolved then .panic "ValidateParameter: subSchema.Value.Default"   -- defaults loop over schema.AllOf
-    else if p.required ∧ !b.found then .err true
-    else if b.valueNil then (if !p.allowEmpty ∧ b.found then .err true else .ok)
+    else if p.required ∧ !b.found then .err
+    else if b.valueNil then (if !p.allowEmpty ∧ b.found then .err else .ok)
     else visit s b
   | none =>
-    if p.required ∧ !b.found then .err true
-    else if b.valueNil then (if !p.allowEmpty ∧ b.found then .err true else .ok)
+    if p.required ∧ !b.found then .err
+    else if b.valueNil then (if !p.allowEmpty ∧ b.found then .err else .ok)
     else .ok
 
 /-- `ValidateParameter` (with `decodeContentParameter` / `defaultContentParameterDecoder` inlined) -/
@@ -106,26 +95,25 @@ def validateParameter (p : ParamM) (b : Bits) : Out :=
   if p.valueNil then .panic "ValidateRequest: parameterRef.Value"
   else if p.schema.isNone ∧ !p.hasContent then .ok
   else if p.hasContent then
-    if !b.found then (if p.required then .err true else afterDecode p none { b with valueNil := true })
-    else if b.multi ∧ !p.isQuery then .err true
-    else if p.contentLen ≠ 1 then .err true
+    if !b.found then (if p.required then .err else afterDecode p none { b with valueNil := true })
+    else if b.multi ∧ !p.isQuery then .err
+    else if p.contentLen ≠ 1 then .err
     else
       match p.jsonMedia with
-      | none => .err true
+      | none => .err
       | some mt =>
         match mt.schema with
-        | none => if b.decodeErr then .err true else afterDecode p none b     -- no schema: decoded, not validated (b569d4d)
+        | none => if b.decodeErr then .err else afterDecode p none b     -- no schema: decoded, not validated (b569d4d)
         | some s =>
           if !s.resolved then .panic "defaultContentParameterDecoder: paramSchema.Value"
-          else if b.decodeErr then .err true
+          else if b.decodeErr then .err
           else afterDecode p (some s) b
   else
     match p.schema with
     | none => .ok
     | some s =>
       if !s.resolved then .panic "decodeValue: schema.Value"
-      else if p.isQuery ∧ b.hugeIndex then .exhaust      -- DecodeObject → makeObject → buildResObj → sliceMapToSlice
-      else if b.decodeErr then .err true
+      else if b.decodeErr then .err
       else afterDecode p (some s) b
 
 structure BodyBits where
@@ -143,17 +131,17 @@ structure BodyM where
 /-- `ValidateRequestBody` -/
 def validateBody (rb : BodyM) (b : BodyBits) : Out :=
   if rb.valueNil then .panic "ValidateRequestBody: requestBody is nil"
-  else if b.dataEmpty then (if rb.required then .err true else .ok)
+  else if b.dataEmpty then (if rb.required then .err else .ok)
   else if rb.content.isEmpty then .ok
   else
     match b.ctMatch.bind (rb.content[·]?) with
-    | none => .err true
+    | none => .err
     | some mt =>
       match mt.schema with
       | none => .ok
       | some s =>
         if !s.resolved then .panic "decodeBody: schema.Value"
-        else if b.bits.decodeErr then .err true
+        else if b.bits.decodeErr then .err
         else visit s b.bits
 
 structure HeaderM where
@@ -167,12 +155,12 @@ def validateHeader (h : HeaderM) (b : Bits) : Out :=
   if h.valueNil then .panic "validateResponseHeader: headerRef.Value"
   else
     match h.schema with
-    | none => if !b.found ∧ h.required then .err true else .ok
+    | none => if !b.found ∧ h.required then .err else .ok
     | some s =>
       if !s.resolved then .panic "decodeValue: schema.Value"
-      else if b.decodeErr then .err true
+      else if b.decodeErr then .err
       else if b.found then visit s b
-      else if h.required then .err true else .ok
+      else if h.required then .err else .ok
 
 structure ResponseM where
   valueNil : Bool           -- responseRef.Value == nil (guarded in the code: "response has not been resolved")
@@ -192,13 +180,12 @@ structure OpM where
 def seq (multi : Bool) : List Out → Out
   | [] => .ok
   | .ok :: rest => seq multi rest
-  | .err p :: rest =>
+  | .err :: rest =>
     if multi then
       (match seq multi rest with
-       | .ok => .err p
-       | .err q => .err (p && q)
+       | .ok => .err
        | o => o)
-    else .err p
+    else .err
   | o :: _ => o
 
 structure ReqTraffic where
@@ -230,7 +217,7 @@ def validateResponse (op : OpM) (t : RespTraffic) : Out :=
     match t.chosen.bind (op.responses[·]?) with
     | none => .ok                      -- undocumented status (or an error with IncludeResponseStatus)
     | some r =>
-      if r.valueNil then .err true
+      if r.valueNil then .err
       else
         match seq false ((zipIdx r.headers 0).map (fun ih => validateHeader ih.2 (t.headerBits ih.1))) with
         | .ok =>
@@ -238,13 +225,13 @@ def validateResponse (op : OpM) (t : RespTraffic) : Out :=
           else if r.content.isEmpty then .ok
           else
             match t.body.ctMatch.bind (r.content[·]?) with
-            | none => .err true
+            | none => .err
             | some mt =>
               match mt.schema with
               | none => .ok
               | some s =>
                 if !s.resolved then .panic "decodeBody: schema.Value"
-                else if t.body.bits.decodeErr then .err true
+                else if t.body.bits.decodeErr then .err
                 else visit s t.body.bits
         | o => o
 
@@ -312,51 +299,12 @@ def ErrWF (e : ReqErrM) : Bool :=
 
 /-! ## lemmas -/
 
-theorem visit_not_bad (s : SchemaM) (b : Bits) (hr : s.resolved = true) (hu : s.unguarded = false)
-    (hc : b.copyFails = false) : (visit s b).bad = false := by
-  unfold visit; simp [hr, hu, hc]; split <;> rfl
-
-theorem visit_printable (s : SchemaM) (b : Bits) (hj : b.errValueJSON = true) : (visit s b).unprintable = false := by
-  unfold visit; repeat' split
-  all_goals first | rfl | simp [Out.unprintable, hj]
-
-theorem afterDecode_printable (p : ParamM) (s : Option SchemaM) (b : Bits) (hj : b.errValueJSON = true) :
-    (afterDecode p s b).unprintable = false := by
-  unfold afterDecode
-  repeat' split
-  all_goals first | rfl | exact visit_printable _ _ hj
-
-theorem validateParameter_printable (p : ParamM) (b : Bits) (hj : b.errValueJSON = true) :
-    (validateParameter p b).unprintable = false := by
-  unfold validateParameter
-  repeat' split
-  all_goals first | rfl | exact afterDecode_printable _ _ _ hj | exact afterDecode_printable _ _ _ (by simpa using hj)
-
-theorem validateBody_printable (rb : BodyM) (b : BodyBits) (hj : b.bits.errValueJSON = true) :
-    (validateBody rb b).unprintable = false := by
-  unfold validateBody
-  repeat' split
-  all_goals first | rfl | exact visit_printable _ _ hj
-
-theorem validateHeader_printable (h : HeaderM) (b : Bits) (hj : b.errValueJSON = true) :
-    (validateHeader h b).unprintable = false := by
-  unfold validateHeader
-  repeat' split
-  all_goals first | rfl | exact visit_printable _ _ hj
-
-theorem errorText_of_printable (d : Bool) (o : Out) (hb : o.bad = false) (hp : o.unprintable = false) :
-    (errorText d o).bad = false := by
-  cases o with
-  | ok => rfl
-  | err p => cases p with
-    | true => rfl
-    | false => simp [Out.unprintable] at hp
-  | panic s => simp [Out.bad] at hb
-  | diverge => simp [Out.bad] at hb
-  | exhaust => simp [Out.bad] at hb
+theorem visit_not_bad (s : SchemaM) (b : Bits) (hr : s.resolved = true) (hu : s.unguarded = false) :
+    (visit s b).bad = false := by
+  unfold visit; simp [hr, hu]; split <;> rfl
 
 theorem afterDecode_not_bad (p : ParamM) (s : Option SchemaM) (b : Bits)
-    (hs : ∀ x, s = some x → x.resolved = true ∧ x.unguarded = false) (hc : b.copyFails = false) :
+    (hs : ∀ x, s = some x → x.resolved = true ∧ x.unguarded = false) :
     (afterDecode p s b).bad = false := by
   unfold afterDecode
   cases s with
@@ -365,7 +313,7 @@ theorem afterDecode_not_bad (p : ParamM) (s : Option SchemaM) (b : Bits)
     obtain ⟨hr, hu⟩ := hs x rfl
     simp only [hr, Bool.not_true, Bool.false_eq_true, and_false, if_false]
     repeat' split <;> try rfl
-    exact visit_not_bad x b hr hu hc
+    exact visit_not_bad x b hr hu
 
 theorem seq_not_bad (multi : Bool) : ∀ (l : List Out), (∀ o ∈ l, o.bad = false) → (seq multi l).bad = false
   | [], _ => rfl
@@ -374,7 +322,7 @@ theorem seq_not_bad (multi : Bool) : ∀ (l : List Out), (∀ o ∈ l, o.bad = f
     have ho := h o (List.mem_cons_self ..)
     cases o with
     | ok => simpa [seq] using ih
-    | err p =>
+    | err =>
       unfold seq
       cases multi with
       | false => rfl
@@ -382,43 +330,11 @@ theorem seq_not_bad (multi : Bool) : ∀ (l : List Out), (∀ o ∈ l, o.bad = f
         simp only [if_true]
         cases hs : seq true rest with
         | ok => rfl
-        | err q => rfl
+        | err => rfl
         | panic s => rw [hs] at ih; exact ih
         | diverge => rw [hs] at ih; exact ih
-        | exhaust => rw [hs] at ih; exact ih
     | panic s => simp [Out.bad] at ho
     | diverge => simp [Out.bad] at ho
-    | exhaust => simp [Out.bad] at ho
-
-/-- every collected error printable ⇒ the result is printable -/
-theorem seq_printable (multi : Bool) : ∀ (l : List Out), (∀ o ∈ l, o.unprintable = false) → (seq multi l).unprintable = false
-  | [], _ => rfl
-  | o :: rest, h => by
-    have ih := seq_printable multi rest (fun x hx => h x (List.mem_cons_of_mem _ hx))
-    have ho := h o (List.mem_cons_self ..)
-    cases o with
-    | ok => simpa [seq] using ih
-    | err p =>
-      have hp : p = true := by cases p <;> simp [Out.unprintable] at ho ⊢
-      subst hp
-      unfold seq
-      cases multi with
-      | false => rfl
-      | true =>
-        simp only [if_true]
-        cases hs : seq true rest with
-        | ok => rfl
-        | err q =>
-          rw [hs] at ih
-          cases q with
-          | true => rfl
-          | false => simp [Out.unprintable] at ih
-        | panic s => rfl
-        | diverge => rfl
-        | exhaust => rfl
-    | panic s => rfl
-    | diverge => rfl
-    | exhaust => rfl
 
 theorem mem_zipIdx {α : Type} : ∀ (l : List α) (i : Nat) (p : Nat × α), p ∈ zipIdx l i → p.2 ∈ l
   | [], _, _, h => by simp [zipIdx] at h
@@ -445,82 +361,5 @@ theorem convertSchema_not_bad (pn : Bool) : ∀ (chain : List SchemaErrM),
     | err => rfl
     | panic s => rw [hcs] at ihx; simp [Out.bad] at ihx
     | diverge => rw [hcs] at ihx; simp [Out.bad] at ihx
-    | exhaust => rw [hcs] at ihx; simp [Out.bad] at ihx
-
-/-! ## F-C10-8: a deepObject key with a huge array index -/
-
-def HugeIndexReq (op : OpM) (t : ReqTraffic) : Bool :=
-  (zipIdx op.params 0).any (fun ip => ip.2.isQuery && (t.paramBits ip.1).hugeIndex)
-
-/-! ## F-C10-7: a value `deepcopy.Copy` cannot copy reaches a oneOf/anyOf -/
-
-def UncopyableReq (op : OpM) (t : ReqTraffic) : Bool :=
-  (zipIdx op.params 0).any (fun ip => (t.paramBits ip.1).copyFails) || t.body.bits.copyFails
-
-def UncopyableResp (op : OpM) (t : RespTraffic) : Bool :=
-  op.responses.any (fun r => (zipIdx r.headers 0).any (fun ih => (t.headerBits ih.1).copyFails)) || t.body.bits.copyFails
-
-/-! ## F-C10-6: the text of a returned error -/
-
-/-- some decoded value of this exchange cannot be JSON-encoded (the decidable exclusion of F-C10-6; a fact about
-    the traffic, not about the document: `q=NaN`, a YAML body `1: x`) -/
-def UnencodableReq (op : OpM) (t : ReqTraffic) : Bool :=
-  (zipIdx op.params 0).any (fun ip => !(t.paramBits ip.1).errValueJSON) || !t.body.bits.errValueJSON
-
-def UnencodableResp (op : OpM) (t : RespTraffic) : Bool :=
-  op.responses.any (fun r => (zipIdx r.headers 0).any (fun ih => !(t.headerBits ih.1).errValueJSON)) ||
-    !t.body.bits.errValueJSON
-
-theorem validateRequest_printable (op : OpM) (t : ReqTraffic) (h : UnencodableReq op t = false) :
-    (validateRequest op t).unprintable = false := by
-  unfold UnencodableReq at h
-  simp only [Bool.or_eq_false_iff, Bool.not_eq_false'] at h
-  obtain ⟨hp, hb⟩ := h
-  unfold validateRequest
-  apply seq_printable
-  intro o ho
-  simp only [List.mem_append, List.mem_map] at ho
-  rcases ho with ⟨ip, hip, rfl⟩ | ho
-  · have := (List.any_eq_false.mp hp) ip hip
-    exact validateParameter_printable _ _ (by simpa using this)
-  · cases hbody : op.body with
-    | none => simp [hbody] at ho
-    | some rb =>
-      simp only [hbody, List.mem_singleton] at ho
-      subst ho
-      exact validateBody_printable _ _ hb
-
-theorem validateResponse_printable (op : OpM) (t : RespTraffic) (h : UnencodableResp op t = false) :
-    (validateResponse op t).unprintable = false := by
-  unfold UnencodableResp at h
-  simp only [Bool.or_eq_false_iff, Bool.not_eq_false'] at h
-  obtain ⟨hh, hb⟩ := h
-  unfold validateResponse
-  split
-  · rfl
-  · split
-    · rfl
-    · cases hm : t.chosen.bind (op.responses[·]?) with
-      | none => rfl
-      | some r =>
-        simp only
-        have hmem : r ∈ op.responses := by
-          cases hct : t.chosen with
-          | none => simp [hct] at hm
-          | some i => simp [hct] at hm; exact List.mem_of_getElem? hm
-        have hr := (List.any_eq_false.mp hh) r hmem
-        have hseq : (seq false ((zipIdx r.headers 0).map (fun ih => validateHeader ih.2 (t.headerBits ih.1)))).unprintable = false := by
-          apply seq_printable
-          intro o ho
-          simp only [List.mem_map] at ho
-          obtain ⟨ih, hih, rfl⟩ := ho
-          have := (List.any_eq_false.mp (Bool.eq_false_iff.mpr hr)) ih hih
-          exact validateHeader_printable _ _ (by simpa using this)
-        split
-        · rfl
-        · split
-          · repeat' split
-            all_goals first | rfl | exact visit_printable _ _ hb
-          · exact hseq
 
 end KinModel.NoPanic.Traffic
